@@ -697,7 +697,7 @@ func lossyWrap(rv ssa.Value, d map[ssa.Value]bool, wraps map[*ssa.Call]bool) *ss
 
 // E4 — EOF mapping: the end-of-stream sentinel may replace an error only under a comparison of a
 // reader-originated error with io.EOF / io.ErrUnexpectedEOF.
-func E4(p *load.Program, r *report.Report, sentinel string) {
+func E4(p *load.Program, r *report.Report, sentinel string, sets IOSets) {
 	n := 0
 	for _, f := range p.SrcFuncs() {
 		k := 0
@@ -740,7 +740,7 @@ func E4(p *load.Program, r *report.Report, sentinel string) {
 				_ = okGuard
 				// guard: all paths into b come through `x == io.EOF` / `x == io.ErrUnexpectedEOF`
 				// where x is the error result of a reader primitive
-				guarded, what := eofGuarded(b)
+				guarded, what := eofGuarded(b, sets)
 				if guarded {
 					r.OK("E4", key, p.Pos(u.Pos()), "produced only under a comparison of a reader error with "+what)
 				} else {
@@ -753,7 +753,7 @@ func E4(p *load.Program, r *report.Report, sentinel string) {
 	r.Floor("E4", "productions of "+sentinel, n, 1)
 }
 
-func eofGuarded(b *ssa.BasicBlock) (bool, string) {
+func eofGuarded(b *ssa.BasicBlock, sets IOSets) (bool, string) {
 	names := map[string]bool{}
 	seen := map[*ssa.BasicBlock]bool{}
 	var rec func(b *ssa.BasicBlock) bool
@@ -768,7 +768,7 @@ func eofGuarded(b *ssa.BasicBlock) (bool, string) {
 		for _, p := range b.Preds {
 			if iff, ok := p.Instrs[len(p.Instrs)-1].(*ssa.If); ok && p.Succs[0] != p.Succs[1] {
 				x, g, eq, ok := sentinelCompare(iff.Cond)
-				if ok && g.Pkg.Pkg.Path() == "io" && (g.Name() == "EOF" || g.Name() == "ErrUnexpectedEOF") && isReaderErr(x) {
+				if ok && g.Pkg.Pkg.Path() == "io" && (g.Name() == "EOF" || g.Name() == "ErrUnexpectedEOF") && isReaderErr(x, sets) {
 					if (p.Succs[0] == b) == eq {
 						names["io."+g.Name()] = true
 						continue
@@ -790,7 +790,7 @@ func eofGuarded(b *ssa.BasicBlock) (bool, string) {
 	return ok && len(ns) > 0, strings.Join(ns, " / ")
 }
 
-func isReaderErr(v ssa.Value) bool {
+func isReaderErr(v ssa.Value, sets IOSets) bool {
 	for _, l := range ssau.Leaves(v) {
 		if l == nil {
 			return false
@@ -802,9 +802,16 @@ func isReaderErr(v ssa.Value) bool {
 		} else {
 			call, _ = l.(*ssa.Call)
 		}
-		if call == nil || !isReaderPrimitive(&call.Call) {
+		if call == nil {
 			return false
 		}
+		if isReaderPrimitive(&call.Call) {
+			continue
+		}
+		if f := call.Call.StaticCallee(); f != nil && sets.Reader[f] {
+			continue // error handed up unwrapped or wrapped by a function that reads from the reader
+		}
+		return false
 	}
 	return true
 }
